@@ -669,6 +669,9 @@ def run_batch(modname, pid, tier, master, stages, workers, level="exploration",
     focus = os.environ.get("VERIF_FOCUS")
     if focus:
         unknown.sort(key=lambda kc: (0 if all(f in kc[0] for f in focus.split("&")) else 1, kc[0]))
+    # classes for which a worker kept a plan come first: each worker keeps the plans of its first 40 violating executions only,
+    # and a class without a kept plan cannot be minimised or replayed (it is still counted, and never turns the verdict to HELD)
+    unknown.sort(key=lambda kc: 0 if kc[1]["plans"] else 1)
     for key, c in unknown[:6]:
         if not c["plans"]:
             continue
@@ -733,6 +736,10 @@ def run_batch(modname, pid, tier, master, stages, workers, level="exploration",
                     exit_code = 2
     if len(unknown) > 6:
         out_lines.append("  (+%d further violation classes not minimised)" % (len(unknown) - 6))
+    if unknown and violations_reported == 0 and exit_code == 0:
+        # violations were seen but none could be turned into a replay file: never report HELD
+        out_lines.append("HARNESS-ERROR property=%s %d violation class(es) seen (e.g. %s) but no plan was kept for them" % (pid, len(unknown), unknown[0][0][:200]))
+        exit_code = 2
     for kh in known_hit.values():
         e = kh["entry"]
         out_lines.append("KNOWN-FINDING: property=%s %s [%d occurrences this run]" % (pid, e.get("description", e.get("invariant")), kh["count"]))
